@@ -164,6 +164,23 @@ def run(ctx):
             continue
         srcs = [x for x in au.walk_local(val) if isinstance(x, ast.Subscript) and isinstance(x.value, ast.Attribute) and au.base_name(x.value) == ref]
         if not srcs:
+            # inside the reference branch every per-step attribute has to come from the reference grid (list initialisations,
+            # np.asarray(self.x) conversions and the index itself - taken from ref.I a statement earlier - aside)
+            in_ref_branch = False
+            for a in p.ancestors(st):
+                if isinstance(a, ast.If):
+                    nt = au.none_test(a.test)
+                    if nt is not None and isinstance(nt[0], ast.Name) and nt[0].id == ref:
+                        arm = a.orelse if nt[1] else a.body       # the arm on which the reference grid exists
+                        if any(st is x for x in au.walk_stmts(arm)):
+                            in_ref_branch = True
+            trivial = isinstance(val, (ast.List, ast.Name)) or (isinstance(val, ast.Call) and au.method_name(val) in ("asarray", "array", "len")) \
+                or (isinstance(val, ast.Attribute) and au.base_name(val) == ref)
+            if in_ref_branch and not trivial and tgt in ("dt", "Dt", "timepoints", "discount_factors"):
+                n_c += 1
+                ctx.ob("C19.c", init, au.short(st, 80), False,
+                       "self.%s of the sub-grid is computed without the reference grid's %s: the step lengths of a coarse sub-grid must be the "
+                       "sums of the fine steps it collects (an interval sticking out of the horizon is shorter than its nominal length)" % (tgt, tgt), node=st)
             continue
         n_c += 1
         attrs = {x.value.attr for x in srcs}
